@@ -504,4 +504,4 @@ func verifHosts(l *roundRobinLoadBalancer) []*Host { return l.hosts.Load().([]*H
 // receiving from a timer's channel consumes its firing: case 1 of the two-way select is connectTimer.C,
 // case 3 of the five-way select is refreshTimer.C
 //@   after select#* set connectTimer.$armed = connectTimer.$armed && !(selcases == 2 && selidx == 1); refreshTimer.$armed = refreshTimer.$armed && !(selcases == 5 && selidx == 3)
-//@   modifies *
+//@   modifies *, any(time.Timer).$armed
